@@ -12,6 +12,7 @@ import ChythonModel.Proofs.C02Final
 import ChythonModel.Proofs.C02Positional
 import ChythonModel.Proofs.C02Atoms
 import ChythonModel.Proofs.C02Fuel2
+import ChythonModel.Proofs.C02ChainSym
 /-!
 # C02 — SMILES write then read is lossless; canonical strings never collide
 
@@ -428,6 +429,18 @@ theorem read_write_constitution (m : Mol) (env : Env) (opts : Opts) (rs : List R
       ∀ a b, (∃ e ∈ es, undirected e.a e.b = undirected a b) ↔ b ∈ nk m a :=
   writer_constitution m env opts rs order hwf h
 
+/-- **chain_bond_symbols** (first half of the symbol part of `ReadWriteBondsFull`; no per-run hypothesis): for every
+    well-formed molecule and every successful write, each CHAIN bond read back from the tokens joins an atom to its DFS
+    parent, carries no symbol at a first end, and the symbol read in front of the atom is exactly what `_format_bond(parent,
+    atom)` returned in the round that wrote it.  (The symbols at the two ends of ring closures stay on the per-run checker
+    `edgeSymbolOk`.) -/
+theorem chain_bond_symbols (m : Mol) (env : Env) (opts : Opts) (rs : List Round) (order : List Nat)
+    (hwf : m.WF = true) (h : smilesRounds m env opts = .ok (rs, order))
+    (es : List REdge) (hes : readToks (joinRounds rs) = .ok es) :
+    ∀ e ∈ es, e.closure = false →
+      ∃ r ∈ rs, ∃ s, (e.a, e.b) ∈ fbonds r.smi ∧ formatBond m opts r.sc e.a e.b = .ok s ∧ e.s2 = some s ∧ e.s1 = none :=
+  chain_symbols_parent m env opts rs order hwf h es hes
+
 /-- **text_reads_back_constitution** (the property's own formulation, constitution part: "reading the text back gives a
     molecule isomorphic to the original under the written atom order"): for every well-formed molecule without an
     aromatic-bonded halogen (the lexical finding `clc`), every style, weights, orders, draws — the written body lexes
@@ -463,6 +476,18 @@ theorem text_reads_back_constitution (m : Mol) (env : Env) (opts : Opts) (rs : L
       hund ▸ List.mem_map.2 ⟨e, he, rfl⟩
     obtain ⟨p, hp, hpe⟩ := List.mem_map.1 this
     exact ⟨p, hp, hpe.trans hee⟩
+
+/-- the same with both hypotheses as Boolean tests on the molecule (`Mol.WF`, `noAromaticHalogenB`): everything the theorem
+    assumes can be evaluated on a given input -/
+theorem text_reads_back_constitution_decidable (m : Mol) (env : Env) (opts : Opts) (rs : List Round) (order : List Nat)
+    (hyp : (m.WF && noAromaticHalogenB m opts) = true) (h : smilesRounds m env opts = .ok (rs, order)) :
+    order.Perm m.ids ∧
+    ∃ lt pes, lex (renderAll (joinRounds rs)) = some lt ∧ readL lt = .ok (m.atoms.length, pes) ∧
+      (∀ p ∈ pes, p.1 < order.length ∧ p.2 < order.length) ∧
+      (pes.map fun p => undirected (atPos order p.1) (atPos order p.2)).Nodup ∧
+      ∀ a b, (∃ p ∈ pes, undirected (atPos order p.1) (atPos order p.2) = undirected a b) ↔ b ∈ nk m a := by
+  simp only [Bool.and_eq_true] at hyp
+  exact text_reads_back_constitution m env opts rs order hyp.1 (noAromaticHalogen_of_B hyp.2) h
 
 /-- **constitution_injective** (collision clause without any per-run hypothesis): if two well-formed molecules — written
     with any styles, orderings, weights — receive the same token list, they have the same atoms and the same bonds.
@@ -556,6 +581,11 @@ example :
         { stack := [{ parent := 1, depth := S.length, children := nk m 1 }], visited := [(1, [])], cycle := 0, draws := [] } with
      | .ok r => r.visited.length == 4 && r.cycle == 2 && r.stack.isEmpty
      | .error _ => false) = true := by
+  decide +kernel
+
+/-- the Boolean hypotheses of `text_reads_back_constitution_decidable` on two concrete molecules -/
+example : (bicycloButane.WF && noAromaticHalogenB bicycloButane ({} : Opts)) = true ∧
+    (twoComp.WF && noAromaticHalogenB twoComp ({} : Opts)) = true := by
   decide +kernel
 
 /-- `NoAromaticHalogen` (hypothesis of `text_reads_back_constitution`) holds for the two-component example: no atom is aromatic -/
